@@ -247,9 +247,17 @@ def run_case(case):
     first, last = date(*w0), date(*w1)
     fails = []
     lo, hi = datetime(first.year, first.month, first.day), datetime(last.year, last.month, last.day)
+    # the bounds are documented as "date or datetime": a datetime bound (naive or aware, any time of day) means its date
+    bound = case[7] if len(case) > 7 else None
+    fd, ld = first, last
+    if bound:
+        hh = 12 if bound.endswith("noon") else 0
+        tzb = UTC if bound.startswith("aware-utc") else (timezone(timedelta(hours=9)) if bound.startswith("aware-east") else None)
+        fd = datetime(first.year, first.month, first.day, hh, 30 if hh else 0, tzinfo=tzb)
+        ld = datetime(last.year, last.month, last.day, hh, tzinfo=tzb)
     try:
-        gen = Timezone.from_tzid(key, first_date=first, last_date=last) if glob is None else \
-            Timezone.from_tzid(key, zp, first_date=first, last_date=last)
+        gen = Timezone.from_tzid(key, first_date=fd, last_date=ld) if glob is None else \
+            Timezone.from_tzid(key, zp, first_date=fd, last_date=ld)
         text = gen.to_ical().decode("utf-8")
     except Exception as e:  # noqa: BLE001
         return {"state": ("gen-raises", key), "trans": 1, "nontrivial": True, "outcome": "generation-raises",
@@ -465,7 +473,7 @@ def run(ctx):
     ctx.rule = ("E-dom: every zone id (%d zoneinfo, %d pytz; quick tier: all zoneinfo zones, a seed-rotated third of the pytz zones on the default window; regeneration (4) for every zone on the default window) x both providers x windows %s: well-formedness, RFC onset "
                 "interpretation and the converted zone vs the source at every point of the partition induced by source breakpoints "
                 "and generated onsets (+-1s and interior points), regeneration. non-trivial = zone with at least one transition in the "
-                "window. Windows whose first / last date is the local date of the zone's own first transition of 2019 (thorough: 1975, 1995, 2019; quick: a seed-rotated half of the zoneinfo zones). Two-year windows starting on 1 July / 15 January (inside northern / southern daylight time) for every zone (quick: all zoneinfo zones, a seed-rotated eighth of the pytz zones). E-hist: for 10 zones (incl. those on which the providers' databases disagree) generate / switch provider / generate / switch back / generate, every result judged against the then-active provider's zone." % (len(zi), len(pz), [f"{a}..{b}" for a, b in windows][:4]))
+                "window. Windows whose first / last date is the local date of the zone's own first transition of 2019 (thorough: 1975, 1995, 2019; quick: a seed-rotated half of the zoneinfo zones). Two-year windows starting on 1 July / 15 January (inside northern / southern daylight time) for every zone (quick: all zoneinfo zones, a seed-rotated eighth of the pytz zones). Window bounds given as naive / aware datetimes with and without a time of day for 9 zones x 2 windows. E-hist: for 10 zones (incl. those on which the providers' databases disagree) generate / switch provider / generate / switch back / generate, every result judged against the then-active provider's zone." % (len(zi), len(pz), [f"{a}..{b}" for a, b in windows][:4]))
     ctx.bounds = {"windows": [f"{a}..{b}" for a, b in windows], "zoneinfo_zones": len(zi), "pytz_zones": len(pz)}
     ctx.assumptions += ["the window is [first_date 00:00, last_date 00:00) in the zone's own local time as the provider localises it; instants before it are excluded",
                         "ground truth: TZif reader (zoneinfo) / the provider's transition table (pytz); the provider object itself is used only to place the window"]
@@ -493,6 +501,16 @@ def run(ctx):
                     yield ("z", provider, key, w0, w1, False)
 
     ctx.explore("windows-starting-in-daylight-time", gen_mid, run_case, recheck=False)
+
+    def gen_bounds():
+        zones = ("America/New_York", "US/Eastern", "Europe/Berlin", "Asia/Tokyo", "Etc/GMT+5", "Australia/Lord_Howe", "Pacific/Apia", "Africa/Casablanca", "UTC")
+        for provider in env.PROVIDERS:
+            for key in zones:
+                for w0, w1 in (((2021, 7, 1), (2023, 7, 1)), ((2021, 1, 15), (2022, 1, 15))):
+                    for bound in ("naive-midnight", "naive-noon", "aware-utc-midnight", "aware-utc-noon", "aware-east-noon"):
+                        yield ("z", provider, key, w0, w1, False, None, bound)
+
+    ctx.explore("window-bounds-given-as-datetimes", gen_bounds, run_case, recheck=False)
 
     def gen_switch():
         for key in SWITCH_ZONES:
